@@ -276,6 +276,33 @@ def noLaterOutcome (u : Bool) (k : Nat) : HState → List HOp → Bool
   | _, [] => true
   | st, op :: r => !touches st op k && noLaterOutcome u k (hstep u st op).2 r
 
+/-- two deliveries B and A on one executor, serialized by propMutex; afterwards A's execution is recorded executed and
+    B's failed. `bFirst` = B got the mutex first. Yields (selected by B, selected by A, final statuses). -/
+def raceOrder (m : List (Nat × Status)) (kb ka : List Nat) (bFirst : Bool) :
+    HRes × HRes × List (Nat × Status) :=
+  let st0 : HState := ⟨m, [], 0, false⟩
+  if bFirst then
+    let b := hstep true st0 (.deliver kb [])
+    let a := hstep true b.2 (.deliver ka [])
+    let s1 := (hstep true a.2 (.outcome 1 true [])).2
+    let s2 := (hstep true s1 (.outcome 0 false [])).2
+    (b.1, a.1, s2.m)
+  else
+    let a := hstep true st0 (.deliver ka [])
+    let s1 := (hstep true a.2 (.outcome 0 true [])).2
+    let b := hstep true s1 (.deliver kb [])
+    let s2 := (hstep true b.2 (.outcome 1 false [])).2
+    (b.1, a.1, s2.m)
+
+/-- PRace: two concurrent deliveries behave like one of the two serial orders (each delivery's check-and-mark is
+    atomic) — in particular no deposit is selected by both -/
+def PRace (m : List (Nat × Status)) (kb ka : List Nat) (selB selA : HRes) (m' : List (Nat × Status)) (n : Nat) : Prop :=
+  ∃ o : Bool, selB = (raceOrder m kb ka o).1 ∧ selA = (raceOrder m kb ka o).2.1 ∧
+    ∀ k, k < n → lookup m' k = lookup (raceOrder m kb ka o).2.2 k
+
+instance (m : List (Nat × Status)) (kb ka : List Nat) (selB selA : HRes) (m' : List (Nat × Status)) (n : Nat) :
+    Decidable (PRace m kb ka selB selA m' n) := by unfold PRace; infer_instance
+
 /-- executed is final along a trace of status maps -/
 def finalAlong (k : Nat) : List (List (Nat × Status)) → Bool
   | a :: b :: r => (lookup a k != .executed || lookup b k == .executed) && finalAlong k (b :: r)
